@@ -155,6 +155,8 @@ def encode(rig: Rig, sym, idx):
         return pack(rig.wd_root, IN_ATTRIB, 5000 + idx, b"")
     if sym == "IGN":
         return pack(rig.wd_sub, IN_IGNORED, 0, b"")
+    if sym == "IGNROOT":
+        return pack(rig.wd_root, IN_IGNORED, 0, b"")
     raise ValueError(sym)
 
 
@@ -254,7 +256,7 @@ def run_script(b: Batch, inst, seq, cuts, gaps, read_size=None, hold_plan=None, 
     n = len(seq)
     released = set(release_vt) if closed_early else set(range(n))
     for i in range(n):
-        if seq[i] == "IGN":
+        if seq[i] in ("IGN", "IGNROOT"):
             continue
         d = delivered.get(i, [])
         if len(d) > 1:
@@ -425,6 +427,14 @@ def run_batch(spec):
                 cuts = tuple(_rand_cuts(r, len(seq)))
                 gaps = [r.choice(GAPS + [EPS, D / 2]) for _ in cuts]
                 close_at = r.randrange(len(cuts)) if r.random() < 0.1 else None
+                if r.random() < 0.1:
+                    # the kernel's watch-removed marker for the ROOT watch (unmount): the reader stops reading by itself; closing
+                    # the buffer afterwards must still wake the consumer
+                    seq = seq + ["IGNROOT"]
+                    cuts = cuts + (1,)
+                    gaps = gaps + [0.0]
+                    close_at = None
+                    b.count("root_ignored_scripts")
                 run_script(b, inst, seq, cuts, gaps, read_size=r.choice([None, None, 80, 48]), close_at=close_at)
         elif k == "holds":
             pts = discover(inst, spec["seed"])
